@@ -359,9 +359,98 @@ end Erbium.Generated.Acl
     write_if_changed(os.path.join(OUT, "Acl.lean"), out)
 
 
+def gen_dns():
+    bucket = strip_comments(read(os.path.join(CORE, "dns/bucket.rs")))
+    mod = strip_comments(read(os.path.join(CORE, "dns/mod.rs")))
+    outq = strip_comments(read(os.path.join(CORE, "dns/outquery.rs")))
+    maxt = grab("dns.MAX_TOKENS", bucket, r"const\s+MAX_TOKENS\s*:\s*u32\s*=\s*([0-9_]+)\s*;", "dns/bucket.rs", lambda m: rust_int(m.group(1)))
+    rate = grab("dns.TOKENS_PER_SECOND", bucket, r"const\s+TOKENS_PER_SECOND\s*:\s*u32\s*=\s*([0-9_]+)\s*;", "dns/bucket.rs", lambda m: rust_int(m.group(1)))
+    sr = fn_body(mod, "should_ratelimit")
+    floor = grab("dns.costFloor", sr,
+                 r"std::cmp::max\(\s*\(in_reply_serialised\.len\(\)\s*\*\s*2\)\s*\.saturating_sub\(msg\.in_size\)\s*,\s*([0-9_]+)\s*,?\s*\)",
+                 "dns/mod.rs should_ratelimit", lambda m: rust_int(m.group(1)))
+    only_refused = grab("dns.ratelimitOnlyRefused", sr, r"if\s+in_reply\.rcode\s*!=\s*dnspkt::REFUSED\s*\{\s*return\s+false;\s*\}", "dns/mod.rs should_ratelimit", lambda m: True)
+    good_exempt = grab("dns.goodCookieExempt", sr, r"CookieStatus::Good\s*=>\s*\{(?:(?!CookieStatus::).)*?return\s+false;", "dns/mod.rs should_ratelimit", lambda m: True)
+    retry = grab("dns.retryLimit", fn_body(outq, "send_udp"), r"if\s+attempts\.len\(\)\s*>\s*([0-9]+)\s*\{\s*return\s+Err\(Error::Timeout\)", "dns/outquery.rs send_udp", lambda m: int(m.group(1)))
+    mint = grab("dns.MIN_DNS_TIMEOUT", outq, r"const\s+MIN_DNS_TIMEOUT\s*:\s*Duration\s*=\s*Duration::from_millis\(([0-9_]+)\)", "dns/outquery.rs", lambda m: rust_int(m.group(1)))
+    maxto = grab("dns.MAX_DNS_TIMEOUT", outq, r"const\s+MAX_DNS_TIMEOUT\s*:\s*Duration\s*=\s*Duration::from_millis\(([0-9_]+)\)", "dns/outquery.rs", lambda m: rust_int(m.group(1)))
+    # create_in_reply: source expression of each field of the struct literal
+    cir = fn_body(mod, "create_in_reply")
+    fields = {}
+    if cir:
+        m = re.search(r"dnspkt::DNSPkt\s*\{(.*)\}\s*\}\s*$", cir, re.S)
+        if m:
+            for f, e in re.findall(r"(\w+)\s*:\s*([^,]+?)\s*,", m.group(1) + ","):
+                fields[f] = re.sub(r"\s+", "", e)
+    want = {"qid": "msg.in_query.qid", "qr": "true", "rcode": "outr.rcode", "question": "msg.in_query.question.clone()",
+            "answer": "outr.answer.clone()", "nameserver": "outr.nameserver.clone()", "additional": "outr.additional.clone()"}
+    status["dns.createInReplyFields"] = {"ok": bool(fields), "value": {k: fields.get(k) for k in want}, "where": "dns/mod.rs create_in_reply"}
+    faithful = {k: fields.get(k) == v for k, v in want.items()}
+    # transport limits: what run_udp / run_tcp pass to the serialiser
+    ru, rt = fn_body(mod, "run_udp"), fn_body(mod, "run_tcp")
+    udp_limited = bool(ru and re.search(r"prepare_to_send\(\s*&in_reply\s*,\s*msg\.in_query\.bufsize\s+as\s+usize\s*,?\s*\)", ru))
+    udp_unlimited = bool(ru and re.search(r"in_reply\.serialise\(\)", ru))
+    tcp_limited_edns = bool(rt and re.search(r"prepare_to_send\(\s*&in_reply\s*,\s*msg\.in_query\.bufsize\s+as\s+usize\s*,?\s*\)", rt))
+    tcp_full = bool(rt and (re.search(r"in_reply\.serialise\(\)", rt) or re.search(r"prepare_to_send\(\s*&in_reply\s*,\s*6553[56]\s*,?\s*\)", rt)))
+    status["dns.transportLimits"] = {"ok": bool(ru and rt), "value": {"udp_limited": udp_limited, "udp_unlimited": udp_unlimited,
+                                                                     "tcp_limited_to_edns": tcp_limited_edns, "tcp_full": tcp_full}, "where": "dns/mod.rs run_udp/run_tcp"}
+    pts = fn_body(mod, "prepare_to_send")
+    floor512 = grab("dns.prepareFloor", pts, r"std::cmp::max\(size\s*,\s*([0-9]+)\)", "dns/mod.rs prepare_to_send", lambda m: int(m.group(1)))
+    dnspkt = strip_comments(read(os.path.join(CORE, "dns/dnspkt.rs")))
+    sws = fn_body(dnspkt, "serialise_with_size")
+    spl = grab("dns.spliceRanges", sws, r"ret\.splice\((\d+)\.\.(=?)(\d+),\s*ancount.*?ret\.splice\((\d+)\.\.(=?)(\d+),\s*nscount.*?ret\.splice\((\d+)\.\.(=?)(\d+),\s*adcount",
+               "dns/dnspkt.rs serialise_with_size", lambda m: [(int(m.group(i)), int(m.group(i + 2)) + (1 if m.group(i + 1) else 0)) for i in (1, 4, 7)])
+    parse = strip_comments(read(os.path.join(CORE, "dns/parse.rs")))
+    depth = grab("dns.pointerDepthLimit", fn_body(parse, "get_domain_into"), r"if\s+depth\s*>\s*([0-9]+)\s*\{", "dns/parse.rs get_domain_into", lambda m: int(m.group(1)))
+
+    def b(k):
+        return boolean(faithful.get(k))
+    sp = spl or [(0, 0), (0, 0), (0, 0)]
+    out = f"""/- GENERATED by tools/extract.py from {REPO} — do not edit. -/
+namespace Erbium.Generated.Dns
+
+/-- `GenericTokenBucket::MAX_TOKENS` / `TOKENS_PER_SECOND` (bucket.rs) -/
+def maxTokens : Nat := {nat(maxt)}
+def tokensPerSecond : Nat := {nat(rate, "1")}
+/-- `max((reply*2).saturating_sub(query), FLOOR)` in `should_ratelimit` -/
+def costFloor : Nat := {nat(floor, "999999999")}
+/-- only REFUSED replies are rate limited; a good cookie returns before charging -/
+def ratelimitOnlyRefused : Bool := {boolean(only_refused)}
+def goodCookieExempt : Bool := {boolean(good_exempt)}
+
+/-- `if attempts.len() > N {{ return Err(Timeout) }}` in `send_udp`; timeout bounds in ms -/
+def retryLimit : Nat := {nat(retry, "999999")}
+def minDnsTimeoutMs : Nat := {nat(mint)}
+def maxDnsTimeoutMs : Nat := {nat(maxto, "999999999")}
+
+/-- `create_in_reply`: each field of the client reply comes from the expected source expression -/
+def replyQidFromQuery : Bool := {b("qid")}
+def replyIsResponse : Bool := {b("qr")}
+def replyRcodeFromUpstream : Bool := {b("rcode")}
+def replyQuestionFromQuery : Bool := {b("question")}
+def replyAnswerFromUpstreamAnswer : Bool := {b("answer")}
+def replyAuthorityFromUpstreamAuthority : Bool := {b("nameserver")}
+def replyAdditionalFromUpstreamAdditional : Bool := {b("additional")}
+
+/-- what the two transports pass to the serialiser -/
+def udpLimitedToAdvertised : Bool := {boolean(udp_limited and not udp_unlimited)}
+def tcpComplete : Bool := {boolean(tcp_full and not tcp_limited_edns)}
+def prepareFloor : Nat := {nat(floor512)}
+
+/-- `ret.splice(a..b, count)` ranges used to rewrite the three section counts after truncation -/
+def spliceRanges : List (Nat × Nat) := [({sp[0][0]}, {sp[0][1]}), ({sp[1][0]}, {sp[1][1]}), ({sp[2][0]}, {sp[2][1]})]
+
+/-- `if depth > N` in `get_domain_into` (first call has depth 1) -/
+def pointerDepthLimit : Nat := {nat(depth)}
+
+end Erbium.Generated.Dns
+"""
+    write_if_changed(os.path.join(OUT, "Dns.lean"), out)
+
+
 def main():
     os.makedirs(OUT, exist_ok=True)
-    gens = [gen_dhcp, gen_pool, gen_acl]
+    gens = [gen_dhcp, gen_pool, gen_acl, gen_dns]
     for g in gens:
         try:
             g()
